@@ -67,13 +67,13 @@ CHECKS.update({
          'Three relations on every generated history: each peek equals the immediately following consuming read; the same history with every peek and offset-addressed read erased must give identical consuming results, counts, WAL file count and per-file reclamation counters after a full drain; every element of an offset-addressed read is an appended payload of that topic (first element may be a suffix) in append order.',
          'H3 (cfg walrus_verif) exposes the per-file counters read-only. File names are wall-clock based, so tracker views are compared as multisets.', '§5 C02'),
  'C07': ('E2', 'fault_enumeration', 'crash-point enumeration over generated workloads (H1 I/O seam: process exit before / in the middle of every foreground I/O event) with a prefix-closed recovery oracle',
-         'For each generated workload all foreground I/O events are enumerated by a traced run; the workload is re-run with the process terminated before each selected event (torn variants for block writes), reopened in a fresh process and drained. Quick samples <=16 crash points per workload (stratified), thorough takes up to 400 (normally all).',
+         'For each generated workload all foreground I/O events are enumerated by a traced run; the workload is re-run with the process terminated before each selected event (torn variants for block writes), reopened in a fresh process and drained. Quick samples <=16 crash points per workload (stratified), thorough takes up to 400 (normally all). A second search (concurrent-producers) runs 2-3 producer threads under the H2 token scheduler with a generated schedule, kills the process at sampled I/O events of the concurrent phase (torn block writes included) and judges the recovered topics against the executor\'s invocation/return log: every append that had returned success, at most the in-flight ones, per-producer order, nothing else.',
          'Process-crash model: completed syscalls and completed stores into the shared mapping persist. Background-thread I/O is not numbered.', '§5 C07'),
  'C08': ('E2', 'fault_enumeration', 'crash-point enumeration inside and around generated batch appends (H1), all-or-nothing recovery oracle',
          'Crash points at every I/O event of every batch operation of generated workloads (per-entry block writes on mmap, j-of-n io_uring submissions on fd, submit, flush, publish); after recovery the topic must hold the acknowledged entries followed by all or none of the in-flight batch.',
          'While known finding C08-prefix (no commit record: a crash between the data writes of a multi-entry batch leaves a valid prefix) is open, crash points strictly between those writes are excluded from the main search and demonstrated by the probe; every other outcome is still a violation.', '§5 C08'),
  'C09': ('E2', 'fault_enumeration', 'crash-point enumeration at the persist steps of consuming reads (H1) with per-mode cursor-bound oracle',
-         'Workloads mixing appends, read_next and consuming batch reads; crash before every I/O event of the reads (index tmp write, fsync, rename) and between operations; StrictlyAtOnce: resume exactly at the acknowledged consumption (in-flight read may go either way); AtLeastOnce: never a skip, read_next-only topics redeliver at most persist_every entries.',
+         'Workloads mixing appends, read_next and consuming batch reads; crash before every I/O event of the reads (index tmp write, fsync, rename) and between operations; StrictlyAtOnce: resume exactly at the acknowledged consumption (in-flight read may go either way); AtLeastOnce: never a skip, read_next-only topics redeliver at most persist_every entries. A second search (concurrent-consumers) kills the process while producer and consumer threads run under a generated H2 schedule; the log of returned reads is the reference: StrictlyAtOnce never redelivers what a returned read delivered, neither mode skips more than the reads in flight may have taken.',
          'Same process-crash model as C07.', '§5 C09'),
  'C14': ('E1', 'exploration', 'grammar-based property testing of namespace keys through all six construction paths with a before/after directory-tree oracle',
          'Key strings from a character-class grammar plus special keys, each through one of six constructors; the whole scratch tree is snapshotted before and after; every new path must lie under <data dir>/<one component not in {"", ".", ".."}>/.',
@@ -128,7 +128,7 @@ m = {
    {'name': 'E6', 'path': 'dist/src/meta.rs', 'serves_properties': ['C18','C20','C25'], 'kind_free_text': 'in-process checks of distributed-walrus metadata.rs and controller/types.rs (#[path]-included unmodified, compiled against stand-in crates under /verif/shims)'},
    {'name': 'E5', 'path': 'harness/src/props/damage.rs', 'serves_properties': ['C11'], 'kind_free_text': 'directory mutation engine: E1 workload -> clean exit -> generated damage -> fresh process reads everything'},
    {'name': 'E4', 'path': 'harness/src/props/multi.rs', 'serves_properties': ['C13'], 'kind_free_text': 'multi-instance interpreter: one child process, several Walrus instances, one reference model per instance'},
-   {'name': 'E3', 'path': 'harness/src/props/conc.rs, harness/src/conc.rs', 'serves_properties': ['C05','C15'], 'kind_free_text': 'schedule-controlled concurrency: thread programs executed under the H2 token scheduler (cfg walrus_verif), schedules generated by proptest or enumerated with a preemption bound'},
+   {'name': 'E3', 'path': 'harness/src/props/conc.rs, harness/src/props/crashconc.rs, harness/src/conc.rs', 'serves_properties': ['C05','C15','C07','C09'], 'kind_free_text': 'schedule-controlled concurrency: thread programs executed under the H2 token scheduler (cfg walrus_verif), schedules generated by proptest or enumerated with a preemption bound'},
    {'name': 'E2', 'path': 'harness/src/props/crash.rs', 'serves_properties': ['C04','C07','C08','C09','C10'], 'kind_free_text': 'crash-point enumeration: E1 workloads traced through the H1 I/O seam, re-executed with the process terminated at each selected event, recovered in a fresh process and judged against the acknowledged history'},
  ],
  'checks': checks,
